@@ -1,6 +1,7 @@
 import Tickit.Proof.RBFlushTextRun
 import Tickit.Proof.RBFlushReach
 import Tickit.Proof.RBFlushX
+import Tickit.Proof.RBFlushSuspend
 /-
   C04 — flushing a render buffer reproduces its content on the terminal exactly once.
 
@@ -616,5 +617,41 @@ def C04_xterm_screen : Prop :=
     ∀ l c, 0 ≤ l → l < s.lines → 0 ≤ c → c < s.cols →
       xcellOK caps (want rb l c) (s.cells l c)
         ((s.interp (xflush caps n cache (flushToTerm rb).reqs).stream).cells l c) = true
+
+/-! ### Pause and resume between two flushes ("for every prior terminal pen") -/
+
+open Tickit.RBFlushX in
+/-- `tickit_term_pause` + `tickit_term_resume` keep the terminal's rendition in step with `tt->pen` - the hypothesis
+    `s.attrs = expectAttrs caps cache` under which `C04_xterm_screen` gives every cell of the next flush its own pen:
+    whatever the terminal rendered with before (`a`), after the `CSI m` of the pause and the bytes `bs` of the
+    `chpen(driver, tt->pen, tt->pen)` that ends `tickit_term_resume` it renders with what the cached pen asks for, for
+    every cached pen the driver can say in SGR and either separator.  (`junk` counts SGR parameters unknown to the
+    terminal; the driver sends none.) -/
+theorem suspend_keeps_rendition_in_step (caps : TermPen.Caps) (cache : Pen) (bs : List Nat)
+    (hok : Tickit.Proof.Sgr.DeltaOk caps (toTP cache))
+    (h : TermPen.xtermChpen caps Tickit.Gen.Sgr.paramsCap (toTP cache) (toTP cache) = .bytes bs)
+    (a : Sgr.Attrs) (hj : a.junk = 0) :
+    resumePenCalls true caps cache = call (bs.map UInt8.ofNat) ∧
+    Sgr.run (TermPen.renderSgr caps.colon [] ++ bs) ⟨.ground, a⟩ = ⟨.ground, TermPen.expectAttrs caps (toTP cache)⟩ := by
+  refine ⟨by simp [resumePenCalls, drvChpenCalls, h], ?_⟩
+  exact Tickit.Proof.RBFlushSuspend.resume_restores_pen caps _ (toTP cache) bs hok h a hj
+
+/-- The pen reset of the pause as the working tree has it (regenerated literal) is the `CSI m` of the statement. -/
+theorem pause_reset_source (colon : Bool) :
+    Tickit.Gen.TermBuf.teardown_pen_reset = (TermPen.renderSgr colon []).map UInt8.ofNat := by
+  cases colon <;> decide
+
+open Tickit.RBFlushX in
+/-- Non-vacuity: a bold green pen is sent again in full; and the last statement of `tickit_term_resume` is needed -
+    without it (`resumePenCalls false`) nothing follows the reset, and the terminal renders a bold green pen's cells
+    with the default attributes. -/
+example :
+    TermPen.xtermChpen ⟨false, false⟩ Tickit.Gen.Sgr.paramsCap (toTP { fg := some ⟨2, none⟩, bold := some true })
+      (toTP { fg := some ⟨2, none⟩, bold := some true }) = .bytes [27, 91, 51, 50, 59, 49, 109] ∧
+    resumePenCalls false ⟨false, false⟩ { fg := some ⟨2, none⟩, bold := some true } = [] ∧
+    Sgr.run (TermPen.renderSgr false [])
+        ⟨.ground, TermPen.expectAttrs ⟨false, false⟩ (toTP { fg := some ⟨2, none⟩, bold := some true })⟩ ≠
+      ⟨.ground, TermPen.expectAttrs ⟨false, false⟩ (toTP { fg := some ⟨2, none⟩, bold := some true })⟩ := by
+  decide +kernel
 
 end Tickit.Props.C04
